@@ -3,7 +3,7 @@ CONSTANTS
   P = 3
   EP = 3
   G = 2
-  MaxSlot = 38
+  MaxSlot = 29
   StartSlots = {0, 3}
   Mode = "design"
   RecMax = 2
@@ -16,5 +16,5 @@ CONSTANTS
   Moods = {"quiet", "plain", "reorg"}
   MaxReorgs = 2
   Fams = {"att", "sync", "bids"}
-INVARIANTS TypeOK AttestedBounded SubsBounded RootsBounded RecordsBounded BidsBounded JobsBounded PendingExact
+INVARIANTS TypeOK RunningLeftTable AttestedBounded SubsBounded RootsBounded RecordsBounded BidsBounded JobsBounded PendingExact
 CHECK_DEADLOCK FALSE
